@@ -365,8 +365,13 @@ func (t *Dense) ShallowClone() *Dense {
 	retVal.flag = t.flag
 	retVal.array = t.array
 
-	retVal.old = t.old
-	retVal.transposeWith = t.transposeWith
+	// the saved access pattern and the transposition axes are owned (zeroed and recycled by UT,
+	// Transpose, ReturnTensor ...) by the tensor that holds them: the clone gets copies
+	t.old.CloneTo(&retVal.old)
+	retVal.transposeWith = nil
+	if t.transposeWith != nil {
+		retVal.transposeWith = append(make([]int, 0, len(t.transposeWith)), t.transposeWith...)
+	}
 	retVal.viewOf = t.viewOf
 	retVal.mask = t.mask
 	retVal.maskIsSoft = t.maskIsSoft
